@@ -245,7 +245,9 @@ def body_plan(doc: dict, man: dict, man_ep: dict, op: dict, tok: docs.Tok, rng: 
     schema = media["schema"]
     bt = mb["body_type"]
     pi = mb["prop"]
-    same = [o["content_type"] for o in man_ep["bodies"] if o is not mb and runtime_class(o["prop"]) == runtime_class(pi)]
+    def overlap(a, b):
+        return a == b or {a, b} in ({"bool", "int"}, {"date", "datetime"}) or "AnyProperty" in (a, b) or "UnionProperty" in (a, b)
+    same = [o["content_type"] for o in man_ep["bodies"] if o is not mb and overlap(runtime_class(o["prop"]), runtime_class(pi))]
     x = {"media": mb["content_type"], "body_type": bt, "n_bodies": len(man_ep["bodies"]), "prop_kind": pi["kind"], "ambiguous_dispatch": bool(same)}
     if bt == "content":
         data = file_bytes(tok)
